@@ -19,9 +19,10 @@ SEQ = {
     "C06": (["C06."], ["render"]),
     "C14": (["C14."], ["render"]),
     "C07": (["C07."], ["phases", "core", "randsched", "eom", "phasejump", "typestate"]),
-    "C09": (["C09."], ["core", "typestate", "randsched", "eom", "limits"]),
+    "C08": (["C08."], ["template"]),
+    "C09": (["C09."], ["core", "typestate", "randsched", "eom", "limits", "template"]),
     "C10": (["C10."], ["core", "randsched", "eom", "fine", "retarget", "phasejump"]),
-    "C13": (["C13."], ["typestate", "eom"]),
+    "C13": (["C13."], ["typestate", "eom", "template"]),
     "C15": (["C15."], ["eom", "eomdrift"]),
 }
 
